@@ -11,23 +11,23 @@ import (
 // triage: one named construct with a reason (G5). Keys are rule-relative
 // construct keys as produced by the SITES enumerators below.
 var triagePanic = map[string]string{
-	"newObjectCache/panic#0":                 "callers: generateInjectors passes a one-element literal; Load returns early when no package matched (checked by this rule)",
-	"injectPass/panic#0":                     "funcOutput(sig) was already accepted by gen.inject for the same signature before either pass runs (checked by this rule)",
-	"gen.writeAST/panic#0":                   "go/printer only fails on malformed syntax trees; the tree is a copyAST copy of type-checked syntax (C15.R1/R2)",
-	"providerSetSrc.description/panic#0":     "every providerSetSrc literal sets exactly one source field and description has a case for every field (checked by this rule)",
-	"ProvidedType.Provider/panic#0":          "accessor: every call site is dominated by IsProvider() on the same value (checked by this rule)",
-	"ProvidedType.Value/panic#0":             "accessor: every call site is dominated by IsValue() on the same value (checked by this rule)",
-	"ProvidedType.Arg/panic#0":               "accessor: every call site is dominated by IsArg(), or is injectPass's no-step return where the result type is provided by an argument (solve planned no step for a non-nil source)",
-	"ProvidedType.Field/panic#0":             "accessor: every call site is dominated by IsField() on the same value (checked by this rule)",
-	"solve/panic#0":                          "default of the source-kind dispatch, exhaustive by C02.R6",
-	"verifyAcyclic/panic#0":                  "default of the source-kind dispatch, exhaustive by C02.R6",
-	"gather/panic#0":                         "default of the source-kind dispatch, exhaustive by C02.R6",
-	"showCmd.Execute/panic#0":                "default of the output type switch, exhaustive by C19.R4",
-	"injectPass/panic#1":                     "default of the step-kind switch, exhaustive by C02.R6",
-	"objectCache.processNewSet/panic#0":      "default of the item type switch, exhaustive by C10.R2",
-	"zeroValue/panic#0":                      "default of the basic-kind switch, exhaustive by C01.R1",
-	"zeroValue/panic#1":                      "default of the underlying-kind switch, exhaustive by C01.R1",
-	"copyAST/panic#0":                        "default of the node-kind switch, exhaustive by C15.R1",
+	"newObjectCache/panic#0":             "callers: generateInjectors passes a one-element literal; Load returns early when no package matched (checked by this rule)",
+	"injectPass/panic#0":                 "funcOutput(sig) was already accepted by gen.inject for the same signature before either pass runs (checked by this rule)",
+	"gen.writeAST/panic#0":               "go/printer only fails on malformed syntax trees; the tree is a copyAST copy of type-checked syntax (C15.R1/R2)",
+	"providerSetSrc.description/panic#0": "every providerSetSrc literal sets exactly one source field and description has a case for every field (checked by this rule)",
+	"ProvidedType.Provider/panic#0":      "accessor: every call site is dominated by IsProvider() on the same value (checked by this rule)",
+	"ProvidedType.Value/panic#0":         "accessor: every call site is dominated by IsValue() on the same value (checked by this rule)",
+	"ProvidedType.Arg/panic#0":           "accessor: every call site is dominated by IsArg(), or is injectPass's no-step return where the result type is provided by an argument (solve planned no step for a non-nil source)",
+	"ProvidedType.Field/panic#0":         "accessor: every call site is dominated by IsField() on the same value (checked by this rule)",
+	"solve/panic#0":                      "default of the source-kind dispatch, exhaustive by C02.R6",
+	"verifyAcyclic/panic#0":              "default of the source-kind dispatch, exhaustive by C02.R6",
+	"gather/panic#0":                     "default of the source-kind dispatch, exhaustive by C02.R6",
+	"showCmd.Execute/panic#0":            "default of the output type switch, exhaustive by C19.R4",
+	"injectPass/panic#1":                 "default of the step-kind switch, exhaustive by C02.R6",
+	"objectCache.processNewSet/panic#0":  "default of the item type switch, exhaustive by C10.R2",
+	"zeroValue/panic#0":                  "default of the basic-kind switch, exhaustive by C01.R1",
+	"zeroValue/panic#1":                  "default of the underlying-kind switch, exhaustive by C01.R1",
+	"copyAST/panic#0":                    "default of the node-kind switch, exhaustive by C15.R1",
 }
 
 var triageAccessor = map[string]string{
@@ -35,20 +35,20 @@ var triageAccessor = map[string]string{
 }
 
 var triageAssert = map[string]string{
-	"solve/assert(*providerSetSrc)#0": "inside the no-provider diagnostic: f ranges over the frames that led here, each of which had a provider when it was expanded, and C05.R1 keeps providerMap and srcMap key sets equal",
-	"solve/assert(*providerSetSrc)#1": "pv is non-nil on this edge (IsNil branch left), and C05.R1 inserts into providerMap and srcMap under the same key",
-	"solve/assert(int)#0":             "C06.R2: dominated by != errAbort; every other value stored in index is an int position",
-	"solve/assert(int)#1":             "C06.R2: dominated by != errAbort; every other value stored in index is an int position",
-	"gather/assert(int)#0":            "all stores into inputVisited are ints; the all-present test above guarantees the key is visited",
-	"gather/assert(int)#1":            "all stores into inputVisited are ints; the parent was visited (re-queue branch above)",
-	"verifyAcyclic/assert(*ProvidedType)#1": "trail elements were expanded heads: each had a non-nil provider-map entry when it was pushed as a successor source",
-	"injectPass/assert(*types.Slice)#0":     "guarded by sig.Variadic() && last parameter: go/types guarantees a variadic signature's last parameter is a slice",
-	"ProviderSet.For/assert(*ProvidedType)#0": "dominated by the non-nil test of the lookup; every value stored in a provider map is a *ProvidedType (C05.R1 sites)",
+	"solve/assert(*providerSetSrc)#0":                "inside the no-provider diagnostic: f ranges over the frames that led here, each of which had a provider when it was expanded, and C05.R1 keeps providerMap and srcMap key sets equal",
+	"solve/assert(*providerSetSrc)#1":                "pv is non-nil on this edge (IsNil branch left), and C05.R1 inserts into providerMap and srcMap under the same key",
+	"solve/assert(int)#0":                            "C06.R2: dominated by != errAbort; every other value stored in index is an int position",
+	"solve/assert(int)#1":                            "C06.R2: dominated by != errAbort; every other value stored in index is an int position",
+	"gather/assert(int)#0":                           "all stores into inputVisited are ints; the all-present test above guarantees the key is visited",
+	"gather/assert(int)#1":                           "all stores into inputVisited are ints; the parent was visited (re-queue branch above)",
+	"verifyAcyclic/assert(*ProvidedType)#1":          "trail elements were expanded heads: each had a non-nil provider-map entry when it was pushed as a successor source",
+	"injectPass/assert(*types.Slice)#0":              "guarded by sig.Variadic() && last parameter: go/types guarantees a variadic signature's last parameter is a slice",
+	"ProviderSet.For/assert(*ProvidedType)#0":        "dominated by the non-nil test of the lookup; every value stored in a provider map is a *ProvidedType (C05.R1 sites)",
 	"providerSetSrc.trace/assert(*providerSetSrc)#0": "dominated by the non-nil test; every value stored in a source map is a *providerSetSrc",
 }
 
 var triageNil = map[string]string{
-	"accessibleFrom/deref:ObjectOf": "every identifier inside a type-checked expression has an object (Defs or Uses); field keys of composite literals resolve to the field",
+	"accessibleFrom/deref:ObjectOf":     "every identifier inside a type-checked expression has an object (Defs or Uses); field keys of composite literals resolve to the field",
 	"gen.rewritePkgRefs/deref:ObjectOf": "the selector's X was just asserted to be an identifier of type-checked syntax; the comma-ok assertion on the object handles nil",
 	"generateInjectors/deref:ObjectOf":  "fn.Name of a function declaration in type-checked syntax always has a *types.Func definition",
 	"Load/deref:ObjectOf":               "fn.Name of a function declaration in type-checked syntax always has a *types.Func definition",
@@ -395,7 +395,7 @@ func init() {
 		func(c *Ctx, r *R) {
 			nilable := map[string]string{
 				"go/types.Object.Pkg": "Pkg", "go/types.object.Pkg": "Pkg", "go/types.Func.Pkg": "", "go/types.Var.Pkg": "Pkg", "go/types.TypeName.Pkg": "Pkg",
-				pathW + ".qualifiedIdentObject":  "qualifiedIdentObject",
+				pathW + ".qualifiedIdentObject": "qualifiedIdentObject",
 				"go/types.Info.ObjectOf":        "ObjectOf",
 				"go/types.Scope.Lookup":         "Lookup",
 				pathW + ".objectCache.varDecl":  "varDecl",
@@ -541,7 +541,7 @@ func init() {
 		func(c *Ctx, r *R) {
 			triage := map[string]string{
 				"processStructProvider/Struct.Field(j)": "j indexes the requested-field list, but a match at (i,j) means requests 0..j named j+1 pairwise distinct fields of st, so j < st.NumFields()",
-				"injectPass/Tuple.At(i)":                 "",
+				"injectPass/Tuple.At(i)":                "",
 			}
 			delete(triage, "injectPass/Tuple.At(i)")
 			n := 0
